@@ -1395,6 +1395,32 @@ class Item:
                      % (var, ty, recv, p), "R3-filter-collect")
         self.rewrite(be, semi + 1, ";\n    if vx_b { %s.push(vx_x); }/*@tail*/\n  }" % var, "R3-filter-collect")
 
+    def r3_map_collect_set_expr(self, fn, k):
+        """the k-th expression `RECV.iter().map(|P| BODY).collect()` of fn collected into a SET (RECV a Vec / slice place; BODY without early
+        exits), in any expression position  ==>  the definition of map + collect::<HashSet<_>>():
+        { let mut vx_out = HashSet::new(); let mut vx_i = 0; while vx_i < RECV.len() { let P = &RECV[vx_i]; let vx_e = BODY;
+          vx_out.insert(vx_e); vx_i += 1; } vx_out }      (BODY stays in place)"""
+        k0, _, bo, end, _ = self.fn_span(fn)
+        hits = list(re.finditer(r"\.\s*iter\s*\(\s*\)\s*\.\s*map\s*\(", self.m[bo:end]))
+        if len(hits) < k:
+            raise Undecided("LOST-ANCHOR: R3 map-collect-set-expr #%d in fn %s of %s" % (k, fn, self.where()))
+        h = hits[k - 1]
+        par = bo + h.end() - 1
+        p, bs, be, close = self._closure_after(par)
+        if re.search(r"\breturn\b|\?", self.m[bs:be]):
+            raise Undecided("R3 map-collect-set-expr: the closure body leaves early (return / ?)")
+        mc = re.match(r"\s*\.\s*collect\s*\(\s*\)", self.m[close + 1:])
+        if not mc:
+            raise Undecided("R3 map-collect-set-expr: `.collect()` expected after the closure")
+        cend = close + 1 + mc.end()
+        s0 = self._chain_start(bo + h.start())
+        recv = self.text[s0:bo + h.start()].strip()
+        if not re.match(r"[A-Za-z_][A-Za-z0-9_.]*$", recv):
+            raise Undecided("R3 map-collect-set-expr: receiver is not a place expression at %s:%d" % (self.relpath, self.line_of(s0)))
+        self.rewrite(s0, bs, "{ let mut vx_out = HashSet::new();\n    let mut vx_i: usize = 0;/*@pre*/\n    while vx_i < %s.len()\n    /*@loop*/\n    {\n      let %s = &%s[vx_i];/*@body*/\n      let vx_e = "
+                     % (recv, p, recv), "R3-map-collect-set")
+        self.rewrite(be, cend, ";\n      vx_out.insert(vx_e);/*@tail*/\n      vx_i = vx_i + 1;\n    }\n    vx_out }", "R3-map-collect-set")
+
     def r3_position_expr(self, fn, k):
         """tail expression `RECV.iter().position(|P| BODY)`  ==>  index loop returning the first index whose BODY holds:
         { let mut vx_pos = None; let mut vx_i = 0; while vx_i < RECV.len() { let P = &RECV[vx_i]; let vx_b = BODY;
